@@ -8,7 +8,8 @@ for every `f` with `wf f = true`.
 Layers (files `HeaderRT1` … `HeaderRT4`):
 1. little-endian encodings versus the checked reads (`rdU16_drop` …), reads of a prefix, `extend`;
 2. `decodeExt` on an encoded typed extended header is `applyExt` (`decodeExt_enc`), the chain walk
-   folds `applyExt` and zeroes the CRC fields (`extLoop_chain`, `decodeExtendedHeaders_chain`);
+   folds `applyExt` and zeroes the CRC fields, whatever bytes follow the terminator inside the header
+   (`extLoop_chain`, `decodeExtendedHeaders_chain_trail`, `decodeExtendedHeaders_chain`);
 3. levels 2 and 3 (`level2_rt`, `level3_rt`);
 4. level 0 with its extended area (`level0ExtArea_enc`, `level0_rt`), level 1 with the chain pulled
    from the input (`readL1Ext_enc`, `level1_rt`);
@@ -130,5 +131,70 @@ theorem example_normalise : normalise dosTimeUTC exampleFields = .ok exampleHdr 
 
 example (data : Bytes) : Header.read dosTimeUTC (encode exampleFields ++ data) = .ok (exampleHdr, data) :=
   header_roundtrip_ok _ _ (by decide) data _ example_normalise
+
+/-! ### non-vacuity: trailing bytes inside a level-2 header
+
+LHA for OS-9 pads level-2 headers by one byte after the chain terminator; the header length counts it.
+The chain walk stops at the zero size and never looks at it. -/
+
+/-- a level-2 header with one extended header (the file name) and one trailing byte -/
+def exampleTrail : Fields :=
+  { level := 2, method := [0x2d, 0x6c, 0x68, 0x35, 0x2d], clen := 100, length := 200, time := 1000000000,
+    crc := 0x1234, osType := 0x39, exts := [.filename [0x61, 0x2e, 0x74, 0x78, 0x74]], trail := [0] }
+
+example : wf exampleTrail = true := by decide
+
+example (mk : Nat → Nat) (data : Bytes) :
+    Header.read mk (encode exampleTrail ++ data) =
+      (normalise mk exampleTrail).bind (fun h => .ok (h, data)) :=
+  header_roundtrip mk exampleTrail (by decide) data
+
+/-- the length field (35) counts the trailing byte -/
+example : encode exampleTrail =
+    [35, 0, 45, 108, 104, 53, 45, 100, 0, 0, 0, 200, 0, 0, 0, 0, 202, 154, 59, 32, 2, 52, 18, 57, 8, 0,
+     1, 97, 46, 116, 120, 116, 0, 0, 0] := by decide +kernel
+
+def exampleTrailHdr : Hdr :=
+  { filename := some [97, 46, 116, 120, 116], method := [45, 108, 104, 53, 45], compressedLength := 100,
+    length := 200, level := 2, osType := 57, crc := 4660, timestamp := 1000000000,
+    raw := [35, 0, 45, 108, 104, 53, 45, 100, 0, 0, 0, 200, 0, 0, 0, 0, 202, 154, 59, 32, 2, 52, 18, 57, 8, 0,
+            1, 97, 46, 116, 120, 116, 0, 0, 0] }
+
+theorem exampleTrail_normalise : normalise dosTimeUTC exampleTrail = .ok exampleTrailHdr := by decide +kernel
+
+example (data : Bytes) : Header.read dosTimeUTC (encode exampleTrail ++ data) = .ok (exampleTrailHdr, data) :=
+  header_roundtrip_ok _ _ (by decide) data _ exampleTrail_normalise
+
+/-- OS-9/68k quirk (length field = total − 2), a common-CRC header whose CRC covers the trailing byte -/
+def exampleTrailK : Fields :=
+  { level := 2, method := [0x2d, 0x6c, 0x68, 0x35, 0x2d], clen := 100, length := 200, time := 1000000000,
+    crc := 0x1234, osType := 0x4b, exts := [.common [], .filename [0x61]], trail := [0] }
+
+example : wf exampleTrailK = true := by decide
+
+def exampleTrailKHdr : Hdr :=
+  { filename := some [97], method := [45, 108, 104, 53, 45], compressedLength := 100,
+    length := 200, level := 2, osType := 75, crc := 4660, timestamp := 1000000000,
+    raw := [34, 0, 45, 108, 104, 53, 45, 100, 0, 0, 0, 200, 0, 0, 0, 0, 202, 154, 59, 32, 2, 52, 18, 75, 5, 0,
+            0, 0, 0, 4, 0, 1, 97, 0, 0, 0],
+    extraFlags := 4, commonCrc := 6120 }
+
+theorem exampleTrailK_normalise : normalise dosTimeUTC exampleTrailK = .ok exampleTrailKHdr := by decide +kernel
+
+example (data : Bytes) : Header.read dosTimeUTC (encode exampleTrailK ++ data) = .ok (exampleTrailKHdr, data) :=
+  header_roundtrip_ok _ _ (by decide) data _ exampleTrailK_normalise
+
+/-- an empty chain followed by a trail: the first size is the terminator -/
+example : wf { exampleTrail with exts := [], trail := [7, 9] } = true := by decide
+
+/-- level 3 counts the trail in its 32-bit length -/
+example : wf { exampleTrail with level := 3, trail := [1, 2, 3] } = true := by decide
+
+/-- levels 0 and 1 have no place for a trail -/
+example : wf { exampleTrail with level := 1 } = false := by decide
+
+/-- the OS-9/68k length `total − 2` must still be ≥ 26: one trailing byte after an empty chain is too short -/
+example : wf { exampleTrailK with exts := [], trail := [7] } = false := by decide
+example : wf { exampleTrailK with exts := [], trail := [7, 9] } = true := by decide
 
 end LhasaV.HeaderRT
